@@ -68,6 +68,8 @@ def decode_line(x: str, idx: int, has_c: bool, matches: bool) -> bool:
     else:
         c = x
     word = "so\"lo"
+    if kind == "E" and SYM == 1:
+        word = x            # a track event whose word consists of digits only is still a word, kept verbatim
     if kind == "N":
         groups = (a, "01234567"[idx], b)
     elif kind in ("S", "A"):
@@ -99,7 +101,7 @@ def decode_line(x: str, idx: int, has_c: bool, matches: bool) -> bool:
     elif kind == "TS":
         ok = ok and d.upper == _val(b) and (d.lower == _val(c) if has_c else d.lower is None)
     else:
-        ok = ok and d.value == word
+        ok = ok and isinstance(d.value, str) and d.value == word
     return done(ok)
 
 
